@@ -53,6 +53,19 @@ def wait_kwargs(cond, kind):
     from indi.client import events
 
     kw = {"device": "A", "vector": "P"}
+    if kind == "definition":
+        # only a custom check makes sense for an event that carries neither a value nor a state of its own
+        kw["event_type"] = events.DefinitionUpdate
+        if cond == "check-raises":
+            def chk(e):
+                if e.vector.state in ("Ok", "Busy"):
+                    return True
+                raise AttributeError("check not applicable to this event (generated)")
+
+            kw["check"] = chk
+        else:
+            kw["check"] = lambda e: e.vector.state in ("Ok", "Busy")
+        return kw
     if kind == "value":
         kw["element"] = "x"
         kw["event_type"] = events.ValueUpdate
@@ -99,6 +112,12 @@ def arrival_message(kind, target, vi):
         name = "x" if target == 0 else "y"
         return message.SetTextVector(device="A", name="P", state="Idle", children=(one_parts.OneText(name=name, value=VALUES[vi % len(VALUES)]),))
     vec = "P" if target == 0 else "Q"
+    if kind == "definition":
+        # the property is defined again (a server does that in reply to every getProperties), with some state
+        from indi.message import def_parts
+
+        return message.DefTextVector(device="A", name=vec, state=STATEVALS[vi % 4], perm="rw", children=(
+            def_parts.DefText(name="x", value="n0"), def_parts.DefText(name="y", value="n0")))
     return message.SetTextVector(device="A", name=vec, state=STATEVALS[vi % 4], children=())
 
 
@@ -126,7 +145,14 @@ def run_case(case):
                 def_parts.DefText(name="x", value="n0"), def_parts.DefText(name="y", value="n0"))))
         sent.clear()
         probe = []
-        client.onevent(callback=lambda e: probe.append((loop.time(), e)))
+        def_states = {}
+
+        def _probe(e):
+            if isinstance(e, events.DefinitionUpdate):
+                def_states[id(e)] = e.vector.state
+            probe.append((loop.time(), e))
+
+        client.onevent(callback=_probe)
         baseline = len(client.callbacks)
         waits = []
         for w in case["waits"]:
@@ -168,7 +194,13 @@ def run_case(case):
             first = None
             nonmatch_before = False
             for t, e in probe:
-                if kind == "value":
+                if kind == "definition":
+                    if not isinstance(e, events.DefinitionUpdate) or e.vector.name != "P":
+                        if first is None:
+                            nonmatch_before = True
+                        continue
+                    new = def_states.get(id(e))
+                elif kind == "value":
                     if not isinstance(e, events.ValueUpdate) or e.element.name != "x" or e.vector.name != "P":
                         if first is None:
                             nonmatch_before = True
@@ -332,9 +364,13 @@ def free_case(draw, nwaits):
         while w["timeout"] is not None and w["timeout"] in times:
             w["timeout"] += 1  # ties with an arrival are excluded by the statement
     unit = draw(st.sampled_from([0.25, 0.125, 0.5, 1.0, 0.0625]))
-    kind = draw(st.sampled_from(["value", "state"]))
+    kind = draw(st.sampled_from(["value", "state", "value", "state", "definition"]))
     if any(w["cond"] == "expect-empty" for w in waits):
         kind = "value"  # there is no empty property state
+    if kind == "definition":
+        for w in waits:
+            if w["cond"] not in ("check", "check-raises"):
+                w["cond"] = "check"
     return {"kind": kind, "waits": waits, "arrivals": sorted(arrivals), "unit": unit}
 
 
